@@ -15,6 +15,10 @@ func run(in Sx) Sx {
 	s, i := uint8(in.At(0).Int64()), uint16(in.At(1).Int64())
 	id := fatchoy.MakeNodeID(s, i)
 	str := id.String()
+	// the printed form must stay what it is while other ids are printed (a string sharing a
+	// reused buffer would change under our feet)
+	_ = (id ^ 0x00555555).String()
+	_ = fatchoy.NodeID(0).String()
 	var parsed fatchoy.NodeID
 	panicked, _ := Catch(func() { parsed = fatchoy.MustParseNodeID(str) })
 	return List(Uint(uint64(id)), Uint(uint64(id.Service())), Uint(uint64(id.Instance())),
@@ -34,6 +38,7 @@ func holds(s uint8, i uint16) (bool, string) {
 		return false, "injective"
 	}
 	str := id.String()
+	_ = (id ^ 0x00AAAAAA).String()
 	if len(str) == 0 {
 		return false, "print"
 	}
